@@ -148,6 +148,8 @@ def step(ins, regs):
         a = regs[ins[1]]
         lam, Q = algopy.eigh(a + a.T)
         return algopy.dot(Q * algopy.sin(lam), Q.T)
+    if op == 'eig_val':       # eigenvalues of a general matrix with real, distinct spectrum (algopy.eig supports D <= 2 only)
+        return algopy.real(algopy.eig(regs[ins[1]])[0])
     if op == 'svd_s':
         return algopy.svd(regs[ins[1]])[1]
     if op == 'lu':
@@ -323,6 +325,12 @@ def precond(ins, regs):
         if op == 'expm':
             m = np.asarray(regs[ins[1]]) * ins[2]
             return m.ndim == 2 and m.shape[0] == m.shape[1] and not _is_cplx(m) and bool(np.abs(m).sum(axis=0).max() <= 0.5)
+        if op == 'eig_val':
+            m = np.asarray(regs[ins[1]])
+            if m.ndim != 2 or m.shape[0] != m.shape[1] or _is_cplx(m):
+                return False
+            w, V = np.linalg.eig(m)
+            return bool(np.all(np.abs(np.imag(w)) == 0) and _gaps(np.real(w)) >= 0.3 and np.linalg.cond(V) <= 20)
         if op in ('svd_s', 'svd_full'):
             m = np.asarray(regs[ins[1]])
             if m.ndim != 2 or _is_cplx(m):
@@ -542,7 +550,7 @@ FIRST_INPUT = {'inv': 'regular', 'det': 'regular', 'logdet': 'posdet', 'solve': 
                'chol': 'square', 'eigh': 'gapsym', 'svd': 'svd', 'trace': 'matrix', 'T': 'matrix', 'diag': 'vecorsquare',
                'symvec': 'square', 'outer': 'vector', 'dot': 'vecormat', 'dotc': 'vecormat', 'prod': 'vector', 'tile': 'vecormat',
                'sum': 'vecormat', 'reshape': 'vecormat', 'get': 'vecormat', 'fft': 'vecormat', 'tri': 'matrix',
-               'expm': 'square', 'svdfull': 'svd', 'minmax': 'vecormat', 'umax': 'vector', 'kink': 'awayzero', 'abs': 'awayzero', 'pow': 'withzeros', 'special': 'unitinterval', 'unp': 'unitinterval', 'unfwd': 'unitinterval', 'dotnd': 'cube'}
+               'expm': 'square', 'svdfull': 'svd', 'minmax': 'vecormat', 'umax': 'vector', 'kink': 'awayzero', 'abs': 'awayzero', 'pow': 'withzeros', 'special': 'unitinterval', 'unp': 'unitinterval', 'unfwd': 'unitinterval', 'dotnd': 'cube', 'eig': 'realeig'}
 
 
 @st.composite
@@ -573,6 +581,14 @@ def _special_input(draw, first, K, max_side):
             sym = draw(gen.symmetric_distinct(n, gap=0.4))
             a = draw(gen.float_array((n, n), elems, sparse=False))
             mats.append(0.5 * sym + 0.5 * (a - a.T))      # m + m^T == sym
+        return np.array(mats)
+    if kind == 'realeig':
+        # V diag(lam) V^-1 with real separated eigenvalues and a well-conditioned eigenvector matrix
+        mats = []
+        for k in range(K):
+            lam = draw(gen.spaced_values(n, 0.3, 0.4, signs=True))
+            V = draw(gen.well_conditioned(n))
+            mats.append(V @ np.diag(lam) @ np.linalg.inv(V))
         return np.array(mats)
     if kind == 'cube':
         shape = draw(st.sampled_from([(2, 2, 3), (2, 3, 2), (3, 2, 2), (2, 2, 2), (1, 2, 3)]))
@@ -944,6 +960,11 @@ def _emit_family_impl(draw, S, fam, allow_set_broadcast=True, allow_ndim_dot=Fal
         if draw(st.integers(0, 2)) == 0 and S.try_emit(['T', a]):
             a = S.nreg() - 1       # Fortran-ordered view as operand
         return S.try_emit([which, a, draw(st.sampled_from([0, 1]))])
+    if fam == 'eig':
+        a = _pick(draw, S, lambda r: S.ndim(r) == 2 and S.shape(r)[0] == S.shape(r)[1] and not S.cplx(r))
+        if a is None:
+            return False
+        return S.try_emit(['eig_val', a])
     if fam == 'svd':
         a = _pick(draw, S, lambda r: S.ndim(r) == 2 and not S.cplx(r))
         if a is None:
@@ -1163,14 +1184,15 @@ def features(case):
                 f.add('real-pow')
         if op in ('dot', 'dotc', 'outer'):
             f.add(op)
-        if op in ('inv', 'solve', 'det', 'logdet', 'qr', 'qr_full', 'chol_spd', 'eigh_sym', 'eigh_fun', 'svd_s', 'lu', 'expm', 'svd_full'):
+        if op in ('inv', 'solve', 'det', 'logdet', 'qr', 'qr_full', 'chol_spd', 'eigh_sym', 'eigh_fun', 'svd_s', 'lu', 'expm', 'svd_full', 'eig_val'):
             f.add('linalg')
             f.add('linalg:' + op)
         if op in ('fft', 'ifft'):
             f.add('complex-intermediate')
         if op in ('reshape', 'T', 'tile', 'diag', 'symvec', 'sum', 'prod', 'trace'):
             f.add(op)
-        if op == 'un' and ins[1] in UN_NONLINEAR or op in ('unp', 'pow', 'dot', 'outer', 'inv', 'solve', 'det', 'logdet', 'prod') \
+        if op == 'un' and ins[1] in UN_NONLINEAR or op in ('unp', 'pow', 'dot', 'outer', 'inv', 'solve', 'det', 'logdet', 'prod', 'qr', 'qr_full',
+                                                          'chol_spd', 'eigh_sym', 'eigh_fun', 'svd_s', 'svd_full', 'lu', 'expm', 'eig_val') \
                 or (op == 'bin' and ins[1] in ('mul', 'div')) or (op == 'binc' and ins[1] == 'div' and ins[4] == 'l'):
             f.add('nonlinear')
     f.add('len=%d' % min(len(prog), 12))
